@@ -276,6 +276,10 @@ func main() {
 	run.Assume("scheduling points at every channel/select/WaitGroup/Mutex operation, goroutine start and environment call (PostProcess, write); plain memory accesses between them are atomic blocks (data races are looked for separately in the free-running -race pass)")
 	run.Assume("state key for the pruned pass = per-thread (ops executed, hash of observations, pending op), channel contents, WaitGroup counters, environment multiset; threads are deterministic given their observations")
 
+	// 3b. the real Persist with the real Go back end as post-processor, sequentially, on every
+	// response over an alphabet of file kinds: success means every file is complete on disk
+	persistPass(run, scratch)
+
 	// 4. free-running race pass (sampling; never decides, but a detected race is a real defect)
 	if run.ViolationCount() == 0 {
 		racePass(run, scratch)
@@ -302,6 +306,48 @@ func firstLine(s string) string {
 		return s[:i]
 	}
 	return s
+}
+
+func persistPass(run *evid.Run, scratch string) {
+	bin := filepath.Join(scratch, "c19persist")
+	cmd := exec.Command("go", "build", "-o", bin, "./checks/c19/persist")
+	cmd.Dir = "/verif"
+	cmd.Env = goEnv()
+	if out, err := cmd.CombinedOutput(); err != nil {
+		run.Fatal("persist pass does not build: %s", out)
+	}
+	root := filepath.Join(scratch, "persist-out")
+	os.MkdirAll(root, 0o755)
+	defer os.RemoveAll(root)
+	ctx, cancel := context.WithTimeout(context.Background(), 10*time.Minute)
+	defer cancel()
+	c := exec.CommandContext(ctx, bin, root)
+	var outb, errb bytes.Buffer
+	c.Stdout, c.Stderr = &outb, &errb
+	if err := c.Run(); err != nil {
+		if ctx.Err() != nil {
+			run.Violate(evid.Violation{Class: "persist-hangs", What: "sequential Persist calls did not finish within 10 minutes", Replay: map[string]any{}})
+			return
+		}
+		run.Violate(evid.Violation{Class: "persist-crashes", What: "the real Persist crashed: " + firstLine(errb.String()), Replay: map[string]any{"stderr": errb.String()}})
+		return
+	}
+	var res struct {
+		Evaluations int `json:"evaluations"`
+		Violations  []struct {
+			Class  string         `json:"class"`
+			What   string         `json:"what"`
+			Replay map[string]any `json:"replay"`
+		} `json:"violations"`
+	}
+	if err := json.Unmarshal(outb.Bytes(), &res); err != nil {
+		run.Fatal("persist pass output: %v", err)
+	}
+	run.EvalN("persist-real-backend", int64(res.Evaluations), int64(res.Evaluations))
+	run.Set("persist_real_backend_responses", res.Evaluations)
+	for _, v := range res.Violations {
+		run.Violate(evid.Violation{Class: "persist:" + v.Class, What: v.What, Replay: v.Replay})
+	}
 }
 
 func racePass(run *evid.Run, scratch string) {
